@@ -1074,6 +1074,10 @@ def eval_cli_main(ctx, found=True, flag_backend=None, flag_no_color=None, config
         "gwf.backends.base.guess_backend": lambda: (10, tok("GUESSED")), "gwf.backends.guess_backend": lambda: (10, tok("GUESSED")),
         "os.getenv": lambda k, d=None: env.get(k, d), "os.environ.get": lambda k, d=None: env.get(k, d),
         "click.confirm": h_confirm, "gwf.cli.init": h_init,
+        # the configuration file being written from the group callback (a `config.dump()` there runs for EVERY command)
+        "builtins.open": lambda p_, mode="r", *a, **k: (events.append(("open", str(p_), k.get("mode", mode))), Obj("file", path=str(p_), mode=k.get("mode", mode)))[1],
+        "json.dump": lambda data, f_, *a, **k: (events.append(("config-write", dict(data) if hasattr(data, "keys") else data, getattr(f_, "path", None))),
+                                                res.__setitem__("config_written", dict(data) if hasattr(data, "keys") else data))[0],
     }
     interp = PureInterp(ctx, hooks=hooks)
     cobj = Obj("click_ctx", obj={})
@@ -1286,6 +1290,10 @@ def cli_main_precedence_witness(ctx):
             got = (res["context"] or {}).get("backend")
             if got != want:
                 diffs.append(f"--backend={fb}, config backend={cb}: the commands get backend {got}, expected {want}")
+            if res.get("config_written") is not None:
+                diffs.append(f"--backend={fb}, config backend={cb}: the group callback - which runs before every command - writes the configuration file ({res['config_written']}): a "
+                             "default or a flag value turns into a project setting nobody set (`gwf config get` shows it, `unset` is undone by the next invocation, and it outranks "
+                             "the real default from then on)")
             if (res["context"] or {}).get("config") is None:
                 diffs.append("the Context does not carry the loaded configuration")
     for fc in (None, True, False):
